@@ -48,6 +48,10 @@ type c11State struct {
 	// pattern; the caller recovers and goes on). Nothing was registered by it: not part of the
 	// content a fresh container is built from, but part of the history.
 	Rejected []int
+	// Undone: services that were removed at least once / whose dynamic route was removed at least
+	// once. Not part of the content either, but a second cycle (remove, then add again) is a
+	// different history from a first one, and the search must not merge them.
+	Undone map[string]bool
 }
 
 func (s c11State) key() string {
@@ -76,6 +80,14 @@ func (s c11State) key() string {
 		rj := append([]int{}, s.Rejected...)
 		sort.Ints(rj)
 		fmt.Fprintf(&sb, "|rejected%v", rj)
+	}
+	if len(s.Undone) > 0 {
+		var ud []string
+		for k := range s.Undone {
+			ud = append(ud, k)
+		}
+		sort.Strings(ud)
+		fmt.Fprintf(&sb, "|undone%v", ud)
 	}
 	return sb.String()
 }
@@ -173,7 +185,10 @@ func (w *c11World) apply(o c11Op) (panicked string) {
 // next computes the abstract successor; ok=false if the operation is outside the alphabet in
 // this state (the property's preconditions).
 func (s c11State) next(u c11Universe, o c11Op) (c11State, bool) {
-	n := c11State{Order: append([]int{}, s.Order...), Routes: map[int][]string{}, Handled: append([]int{}, s.Handled...), HandledBeforeRemove: map[int]bool{}, Rejected: append([]int{}, s.Rejected...)}
+	n := c11State{Order: append([]int{}, s.Order...), Routes: map[int][]string{}, Handled: append([]int{}, s.Handled...), HandledBeforeRemove: map[int]bool{}, Rejected: append([]int{}, s.Rejected...), Undone: map[string]bool{}}
+	for k := range s.Undone {
+		n.Undone[k] = true
+	}
 	for i, r := range s.Routes {
 		n.Routes[i] = append([]string{}, r...)
 	}
@@ -210,6 +225,9 @@ func (s c11State) next(u c11Universe, o c11Op) (c11State, bool) {
 				keep = append(keep, j)
 			}
 		}
+		if len(keep) != len(n.Order) {
+			n.Undone[fmt.Sprint("removed", o.I)] = true
+		}
 		n.Order = keep
 		for _, hnd := range n.Handled {
 			n.HandledBeforeRemove[hnd] = true
@@ -240,6 +258,7 @@ func (s c11State) next(u c11Universe, o c11Op) (c11State, bool) {
 		if !found {
 			return n, false
 		}
+		n.Undone[fmt.Sprint("unrouted", o.I)] = true
 		n.Routes[o.I] = keep
 	case "handle":
 		for _, j := range n.Handled {
